@@ -38,6 +38,8 @@ def unparse(p, ctx="top"):
         return "" if ctx == "top" else "()"
     if k == "lit":
         return str(p["n"])
+    if k == "elist":
+        return "[]"
     if k == "str":
         return _str_lit(p["w"])
     if k == "word":
